@@ -1,22 +1,30 @@
 /-
   C18 — `Local` uses the zone the environment names, and notices changes.
   Property statements only.  Model: `Chrono.M.LocalCache` (state machine with atomic steps, an
-  abstract clock, the file system / rule reader / system zone name / hash as parameters `World`).
+  abstract clock, the file system / rule reader / system zone name as parameters `World`).
   Specification: `Chrono.Spec.LocalCache` (`zoneFor`, `named`, `systemZone`, histories).
-  Outside the model, hence not claimed: real thread scheduling, clock jumps, hash collisions,
+  Outside the model, hence not claimed: real thread scheduling, clock jumps,
   /etc/localtime changing without its mtime changing.
+  Finding F33 (the cache keyed on a hash of the TZ text: a change between two colliding values was
+  never noticed) is repaired in the crate; the cache — and the model — hold the text itself, and no
+  theorem of this file assumes anything about a hash any more.  The pre-repair behaviour is pinned by
+  `hash_collision_pinned_before_F33`.
 -/
 import Chrono.Proofs.LocalCacheNarrowL
+import Chrono.Proofs.LocalCacheF33L
 
 namespace Chrono.Props.C18
 open Chrono.M.LocalCache Chrono.Spec.LocalCache Chrono.Proofs.LocalCache Chrono.Extracted.LocalCache
 
-/-- the constants re-extracted from the Rust source are the ones the property text names -/
+/-- the constants re-extracted from the Rust source are the ones the property text names; and the
+cache's environment source is the TEXT of TZ, compared as text, with no hasher in unix.rs (F33
+repaired: if the hash comes back, the extractor writes `false` and this theorem fails) -/
 theorem constants_ok :
     ZONE_INFO_DIRECTORIES = zoneinfoDirs ∧ TZDB_LOCATION = usrShareZoneinfo ∧
     LOCALTIME_NAME = localtimeWord ∧ UNSET_NAME = localtimeWord ∧
     LOCALTIME_PATH = etcLocaltime ∧ METADATA_PATH = etcLocaltime ∧ ENV_NAME = [84, 90] ∧
-    FILE_PREFIX = colon ∧ REUSE_STRICT = true ∧ REUSE_SECS = 1 ∧ NANOS * REUSE_SECS = ONE_SECOND := by
+    FILE_PREFIX = colon ∧ REUSE_STRICT = true ∧ REUSE_SECS = 1 ∧ NANOS * REUSE_SECS = ONE_SECOND ∧
+    ENV_SOURCE_IS_TEXT = true := by
   decide
 
 /-- the zone `current_zone` builds is the zone the property demands, for every world and every
@@ -103,26 +111,25 @@ theorem reuse_window (last now : Nat) :
 conversions on any threads, threads starting) and a conversion made next on any thread `t` in either
 direction: the history splits as `h = q ++ r` where less than one second passes in `r`, and the
 conversion uses the zone demanded for the value TZ had after `q`.  (Model assumptions as everywhere in
-this file: atomic steps, a clock that does not go backwards; the hash is injective on the TZ values of
-the history.) -/
+this file: atomic steps, a clock that does not go backwards.  No assumption on the TZ values: the
+cache compares the text of TZ, finding F33 repaired.) -/
 theorem honoured_within_last_second (W : World) (e0 : EnvVal) (k0 : Nat) (h : List Step)
-    (hinj : InjOn W (valuesOf e0 h)) (t : Nat) (localDir : Bool) :
+    (t : Nat) (localDir : Bool) :
     ∃ q r, h = q ++ r ∧ elapsed r < ONE_SECOND ∧
       zoneOfStep (step W (exec W (init e0 k0) h) (.convert t localDir)) =
         some (zoneFor W (env_var (envAfter e0 q))) :=
-  honoured_within_last_second' W e0 k0 h hinj t localDir
+  honoured_within_last_second' W e0 k0 h t localDir
 
 /-- **A change of TZ is honoured by EVERY conversion made at least one second later** — whatever
 happens in between, further changes of TZ included: if the history is `a ++ [chg] ++ b` and at least
 one second passes in `b`, the zone used is the one demanded for the value TZ had at some point `c` at
 or after `chg` (and less than one second back): never the value from before `chg`. -/
 theorem honoured_every_change (W : World) (e0 : EnvVal) (k0 : Nat) (a b : List Step) (chg : Step)
-    (hwait : ONE_SECOND ≤ elapsed b)
-    (hinj : InjOn W (valuesOf e0 (a ++ chg :: b))) (t : Nat) (localDir : Bool) :
+    (hwait : ONE_SECOND ≤ elapsed b) (t : Nat) (localDir : Bool) :
     ∃ c r, b = c ++ r ∧ elapsed r < ONE_SECOND ∧
       zoneOfStep (step W (exec W (init e0 k0) (a ++ chg :: b)) (.convert t localDir)) =
         some (zoneFor W (env_var (envAfter e0 (a ++ chg :: c)))) := by
-  obtain ⟨q, r, e, hr, hz⟩ := honoured_within_last_second W e0 k0 (a ++ chg :: b) hinj t localDir
+  obtain ⟨q, r, e, hr, hz⟩ := honoured_within_last_second W e0 k0 (a ++ chg :: b) t localDir
   obtain ⟨c, hq, hb⟩ := split_after_change a b q r chg e (by omega)
   exact ⟨c, r, hb, hr, by rw [hz, hq]⟩
 
@@ -130,11 +137,10 @@ theorem honoured_every_change (W : World) (e0 : EnvVal) (k0 : Nat) (a b : List S
 conversion uses the zone demanded for the current value of TZ -/
 theorem honoured_after_1s (W : World) (e0 : EnvVal) (k0 : Nat) (p1 p2 : List Step) (chg : Step)
     (hno : ∀ x ∈ p2, isChange x = false)
-    (hwait : ONE_SECOND ≤ elapsed p2)
-    (hinj : InjOn W (valuesOf e0 (p1 ++ chg :: p2))) (t : Nat) (localDir : Bool) :
+    (hwait : ONE_SECOND ≤ elapsed p2) (t : Nat) (localDir : Bool) :
     zoneOfStep (step W (exec W (init e0 k0) (p1 ++ chg :: p2)) (.convert t localDir)) =
       some (zoneFor W (env_var (envAfter e0 (p1 ++ chg :: p2)))) := by
-  obtain ⟨c, r, hb, _, hz⟩ := honoured_every_change W e0 k0 p1 p2 chg hwait hinj t localDir
+  obtain ⟨c, r, hb, _, hz⟩ := honoured_every_change W e0 k0 p1 p2 chg hwait t localDir
   rw [hz]
   have e1 : p1 ++ chg :: p2 = (p1 ++ chg :: c) ++ r := by rw [hb]; simp
   have e2 : envAfter e0 ((p1 ++ chg :: c) ++ r) = envAfter e0 (p1 ++ chg :: c) := by
@@ -142,19 +148,16 @@ theorem honoured_after_1s (W : World) (e0 : EnvVal) (k0 : Nat) (p1 p2 : List Ste
     exact envAfter_nochange _ r (fun x hx => hno x (by rw [hb]; exact List.mem_append_right _ hx))
   rw [e1, e2]
 
-/-- `honoured_after_1s` under the narrowest assumption on the hash that the mechanism allows
-(`hash_collision_is_not_covered` shows it cannot be dropped): no TZ value that occurred up to the
-last change has the same hash as the value that change set, unless it is that value.  Collisions
-among older values are harmless; and when the last change unsets TZ (or sets it to non-text) nothing
-at all is assumed. -/
+/-- formerly `honoured_after_1s` under a narrowed assumption on `DefaultHasher` (no earlier TZ value
+shares its hash with the value the last change set).  Since the repair of F33 there is nothing left to
+assume: the name is kept for the record and the statement is `honoured_after_1s` itself, for every
+history and every value. -/
 theorem honoured_after_1s_narrow (W : World) (e0 : EnvVal) (k0 : Nat) (p1 p2 : List Step) (chg : Step)
     (hno : ∀ x ∈ p2, isChange x = false) (hwait : ONE_SECOND ≤ elapsed p2)
-    (hsep : ∀ cur, env_var (envAfter e0 (p1 ++ [chg])) = some cur →
-      ∀ v ∈ valuesOf e0 (p1 ++ [chg]), W.hash v = W.hash cur → v = cur)
     (t : Nat) (localDir : Bool) :
     zoneOfStep (step W (exec W (init e0 k0) (p1 ++ chg :: p2)) (.convert t localDir)) =
       some (zoneFor W (env_var (envAfter e0 (p1 ++ chg :: p2)))) :=
-  honoured_after_1s_narrow' W e0 k0 p1 p2 chg hno hwait hsep t localDir
+  honoured_after_1s W e0 k0 p1 p2 chg hno hwait t localDir
 
 /-- **What the caller sees.**  The theorems above name the zone the cache lookup yields; a public
 conversion returns what that one zone answers (`Lookups`: the zone's own lookup functions, C05/C16),
@@ -162,13 +165,13 @@ in the direction asked for.  For every history: both `offset_from_utc_datetime` 
 `offset_from_local_datetime`, called next on any thread, return the answer of the zone demanded for
 the value TZ had at a point less than one second back. -/
 theorem honoured_result {β : Type} (L : Lookups β) (W : World) (e0 : EnvVal) (k0 : Nat) (h : List Step)
-    (hinj : InjOn W (valuesOf e0 h)) (t : Nat) (d : Int) :
+    (t : Nat) (d : Int) :
     ∃ q r, h = q ++ r ∧ elapsed r < ONE_SECOND ∧
       (Local.offset_from_utc_datetime L W (exec W (init e0 k0) h) t d).2 =
         L.utc (zoneFor W (env_var (envAfter e0 q))) d ∧
       (Local.offset_from_local_datetime L W (exec W (init e0 k0) h) t d).2 =
         L.loc (zoneFor W (env_var (envAfter e0 q))) d := by
-  obtain ⟨q, r, e, hr, hz⟩ := honoured_within_last_second W e0 k0 h hinj t false
+  obtain ⟨q, r, e, hr, hz⟩ := honoured_within_last_second W e0 k0 h t false
   have hz' : (inner_offset W (exec W (init e0 k0) h) t).2.1 = zoneFor W (env_var (envAfter e0 q)) :=
     Option.some.inj hz
   exact ⟨q, r, e, hr, by show L.utc _ d = _; rw [hz'], by show L.loc _ d = _; rw [hz']⟩
@@ -197,24 +200,22 @@ theorem honoured_without_change (W : World) (e0 : EnvVal) (k0 : Nat) (h : List S
 /-- the underlying invariant, for any reachable state: every cache was filled under some TZ value
 of the history, and that value is the current one unless the cache was last checked before the last
 change of TZ -/
-theorem cache_invariant (W : World) (e0 : EnvVal) (k0 : Nat) (h : List Step)
-    (hinj : InjOn W (valuesOf e0 h)) :
+theorem cache_invariant (W : World) (e0 : EnvVal) (k0 : Nat) (h : List Step) :
     Inv W (valuesOf e0 h) (exec W (init e0 k0) h) (ghostRun W (init e0 k0) 0 h) :=
-  exec_ok W _ hinj h _ 0 (init_ok W e0 k0 h) (stepIn_valuesOf e0 h)
+  exec_ok W _ h _ 0 (init_ok W e0 k0 h) (stepIn_valuesOf e0 h)
 
 /-- the invariant behind `honoured_within_last_second`, for any reachable state: environment and
 clock are those of the history, and every cache records the point `q` of the history at which it was
 last checked: `last_checked` is the clock after `q`, source and zone are those of TZ's value after `q` -/
-theorem cache_records_history (W : World) (e0 : EnvVal) (k0 : Nat) (h : List Step)
-    (hinj : InjOn W (valuesOf e0 h)) :
+theorem cache_records_history (W : World) (e0 : EnvVal) (k0 : Nat) (h : List Step) :
     HistInv W e0 k0 h (exec W (init e0 k0) h) := by
-  have := exec_at W e0 k0 h [] (init e0 k0) (by simpa using hinj) (init_at W e0 k0)
+  have := exec_at W e0 k0 h [] (init e0 k0) (init_at W e0 k0)
   simpa using this
 
 /-- A change of TZ is honoured immediately on a new thread: after thread `t` starts, whatever else
 happens (changes of TZ, waiting, conversions on other threads, other threads starting), its first
 conversion builds a fresh cache and uses the zone demanded for the value TZ has at that moment.
-Any start state, no assumption on the hash. -/
+Any start state. -/
 theorem new_thread_immediate (W : World) (s0 : State) (pre mid : List Step) (t : Nat) (localDir : Bool)
     (hmid : noConvertOn t mid = true) :
     (step W (exec W s0 (pre ++ .spawn t :: mid)) (.convert t localDir)).2 =
@@ -261,8 +262,8 @@ theorem one_lookup_per_entry_point {β : Type} (L : Lookups β) (W : World) (c :
 
 /-! ### witnesses: non-vacuity, and that the hypotheses cannot be dropped -/
 
-/-- a small world: two zone files, one rule, system zone "S", identity-like hash -/
-def W0 (hash : Bytes → Nat) : World :=
+/-- a small world: two zone files, one rule, system zone "S" -/
+def W0 : World :=
   { fs := fun p =>
       if p = [47, 97] then .data (some 1)                       -- "/a"
       else if p = usrShareZoneinfo ++ [47, 98] then .data (some 2)     -- zoneinfo "b"
@@ -273,32 +274,32 @@ def W0 (hash : Bytes → Nat) : World :=
       else .absent
     rule := fun s => if s = [88, 89, 90, 45, 51] then some 3 else none    -- "XYZ-3"
     sysName := some [83]
-    ltMtime := some 5
-    hash := hash }
+    ltMtime := some 5 }
 
-def lenHash (b : Bytes) : Nat := b.length      -- collides on strings of equal length
-def sumHash (b : Bytes) : Nat := b.foldl (fun a x => a * 257 + x + 1) 0
+/-- a stand-in for a colliding `DefaultHasher` (used only with the pre-repair rule): equal on strings
+of equal length -/
+def lenHash (b : Bytes) : Nat := b.length
 
 /-- the table on concrete values (absolute path with and without colon, relative name, rule with
 white space, empty, unset, directory, non-TZif file, garbage → system zone) -/
 example :
-    current_zone (W0 sumHash) (some [58, 47, 97]) = .tzif [47, 97] 1 ∧
-    current_zone (W0 sumHash) (some [47, 97]) = .tzif [47, 97] 1 ∧
-    current_zone (W0 sumHash) (some [98]) = .tzif (usrShareZoneinfo ++ [47, 98]) 2 ∧
-    current_zone (W0 sumHash) (some [58, 98]) = .tzif (usrShareZoneinfo ++ [47, 98]) 2 ∧
-    current_zone (W0 sumHash) (some [32, 88, 89, 90, 45, 51, 9]) = .rule [88, 89, 90, 45, 51] 3 ∧
-    current_zone (W0 sumHash) (some []) = .utc ∧
-    current_zone (W0 sumHash) none = .tzif etcLocaltime 7 ∧
-    current_zone (W0 sumHash) (some [47, 100]) = .tzif (usrShareZoneinfo ++ [47, 83]) 9 ∧
-    current_zone (W0 sumHash) (some [58, 47, 120]) = .tzif (usrShareZoneinfo ++ [47, 83]) 9 ∧
-    current_zone (W0 sumHash) (some [58, 88, 89, 90, 45, 51]) = .tzif (usrShareZoneinfo ++ [47, 83]) 9 ∧
-    current_zone { W0 sumHash with sysName := none } (some [103]) = .utc := by decide
+    current_zone W0 (some [58, 47, 97]) = .tzif [47, 97] 1 ∧
+    current_zone W0 (some [47, 97]) = .tzif [47, 97] 1 ∧
+    current_zone W0 (some [98]) = .tzif (usrShareZoneinfo ++ [47, 98]) 2 ∧
+    current_zone W0 (some [58, 98]) = .tzif (usrShareZoneinfo ++ [47, 98]) 2 ∧
+    current_zone W0 (some [32, 88, 89, 90, 45, 51, 9]) = .rule [88, 89, 90, 45, 51] 3 ∧
+    current_zone W0 (some []) = .utc ∧
+    current_zone W0 none = .tzif etcLocaltime 7 ∧
+    current_zone W0 (some [47, 100]) = .tzif (usrShareZoneinfo ++ [47, 83]) 9 ∧
+    current_zone W0 (some [58, 47, 120]) = .tzif (usrShareZoneinfo ++ [47, 83]) 9 ∧
+    current_zone W0 (some [58, 88, 89, 90, 45, 51]) = .tzif (usrShareZoneinfo ++ [47, 83]) 9 ∧
+    current_zone { W0 with sysName := none } (some [103]) = .utc := by decide
 
 /-- the hypotheses of `honoured_after_1s` are met by a real history, and the bound of one second
 is sharp: 0.999999999 s after the change the same thread still answers with the old zone, one
 nanosecond later with the new one; a thread started in between answers with the new one at once -/
 theorem window_is_sharp :
-    run (W0 sumHash) (init .unset 100)
+    run W0 (init .unset 100)
       [.setTZ [47, 97], .convert 0 false, .setTZ [98], .advance 999999999, .convert 0 true,
        .spawn 1, .convert 1 false, .advance 1, .convert 0 false, .convert 1 true] =
       [(.tzif [47, 97] 1, .created), (.tzif [47, 97] 1, .reused),
@@ -306,43 +307,83 @@ theorem window_is_sharp :
        (.tzif (usrShareZoneinfo ++ [47, 98]) 2, .reloaded),
        (.tzif (usrShareZoneinfo ++ [47, 98]) 2, .reused)] := by decide
 
-example : InjOn (W0 sumHash) (valuesOf .unset [.setTZ [47, 97], .convert 0 false, .setTZ [98], .advance 1000000000]) := by
-  decide
-
 /-- histories with changes inside the last second.  First (the audit's example): set A; convert;
 +0.6 s; set B; +0.6 s; set C; +0.5 s; convert — 1.1 s after B: `honoured_every_change` with `chg` =
 set B says the zone is that of B or of C, never A; the cache is 1.7 s old, is re-read, and gives C.
 Second: a conversion 0.4 s after B on a cache filled 0.5 s before B still answers A (0.9 s old:
 `honoured_within_last_second` with `q` = the history up to the first conversion); 0.6 s later it has
 moved on to the value set in between -/
-example : InjOn (W0 sumHash) (valuesOf .unset
-      [.setTZ [47, 97], .convert 0 false, .advance 600000000, .setTZ [98], .advance 600000000,
-       .setTZ [88, 89, 90, 45, 51], .advance 500000000]) ∧
-    run (W0 sumHash) (init .unset 100)
+example :
+    run W0 (init .unset 100)
       [.setTZ [47, 97], .convert 0 false, .advance 600000000, .setTZ [98], .advance 600000000,
        .setTZ [88, 89, 90, 45, 51], .advance 500000000, .convert 0 false] =
       [(.tzif [47, 97] 1, .created), (.rule [88, 89, 90, 45, 51] 3, .reloaded)] ∧
-    run (W0 sumHash) (init .unset 100)
+    run W0 (init .unset 100)
       [.setTZ [47, 97], .convert 0 false, .advance 500000000, .setTZ [98], .advance 400000000,
        .convert 0 false, .setTZ [88, 89, 90, 45, 51], .advance 600000000, .convert 0 true] =
       [(.tzif [47, 97] 1, .created), (.tzif [47, 97] 1, .reused),
        (.rule [88, 89, 90, 45, 51] 3, .reloaded)] := by decide
 
-/-- the assumption on the hash cannot be dropped: with a hash that collides on the two values, the
-change is never noticed (2 s and 3 s later the old zone is still used) -/
-theorem hash_collision_is_not_covered :
-    run (W0 lenHash) (init .unset 100)
+/-- **PINNED PRE-FIX BEHAVIOUR — finding F33, repaired.**  This is NOT a statement about the present
+code: it is about the refresh rule as it was before the repair (`BeforeF33`: the source of the cache
+holds a hash of the TZ text and `out_of_date` compares hashes).  For every world, every hash function
+and every two DISTINCT values `a`, `b` with equal hash: on the history "TZ = a; convert; TZ = b; `n` ≥
+1 s pass; convert" (same thread, any directions) the second conversion used the zone demanded for `a`
+(decision `rechecked`: the environment was re-read and judged unchanged) — where the property demands
+the zone of `b`, which is what the model of the repaired code answers on the very same history
+(`reloaded`).  On the real crate: a = `<lVhnH9Y>-02<fch>,M3.2.0,M11.1.0`, b =
+`<MIa3-7z>-11<h7b>,M3.2.0,M11.1.0`, both a46d3dde525f155a under `DefaultHasher::new()`: 7200 instead
+of 39600, for ever (harness: the directed colliding histories of c18.rs; seeded/REGRESS-F33). -/
+theorem hash_collision_pinned_before_F33 (W : World) (hash : Bytes → Nat) (a b : Bytes)
+    (hab : a ≠ b) (hcoll : hash a = hash b) (e0 : EnvVal) (k0 : Nat) (t : Nat) (l1 l2 : Bool)
+    (n : Nat) (hn : ONE_SECOND ≤ n) :
+    -- before the repair: a's zone both times
+    BeforeF33.run W hash (BeforeF33.init e0 k0)
+        [.setTZ a, .convert t l1, .setTZ b, .advance n, .convert t l2] =
+      [(zoneFor W (some a), .created), (zoneFor W (some a), .rechecked)] ∧
+    -- the repaired code (the model), and the property: b's zone
+    run W (init e0 k0) [.setTZ a, .convert t l1, .setTZ b, .advance n, .convert t l2] =
+      [(zoneFor W (some a), .created), (zoneFor W (some b), .reloaded)] ∧
+    zoneOfStep (step W (exec W (init e0 k0) [.setTZ a, .convert t l1, .setTZ b, .advance n])
+      (.convert t l2)) = some (zoneFor W (env_var (envAfter e0 [.setTZ a, .convert t l1, .setTZ b, .advance n]))) := by
+  refine ⟨?_, ?_, ?_⟩
+  · rw [← current_zone_eq]; exact BeforeF33.collision_unnoticed W hash a b hcoll e0 k0 t l1 l2 n hn
+  · rw [← current_zone_eq, ← current_zone_eq]; exact collision_noticed W a b hab e0 k0 t l1 l2 n hn
+  · exact honoured_after_1s W e0 k0 [.setTZ a, .convert t l1] [.advance n] (.setTZ b)
+      (by intro x hx; simp at hx; subst hx; rfl) (by simp [elapsed]; exact hn) t l2
+
+/-- the pinned behaviour is a real difference: in `W0` with a hash that is equal on "b" and "g" the
+pre-repair rule answers zone file "b" 2 s and 3 s after TZ was set to "g" (no such file, no such rule:
+the system zone "S" is demanded); the model of the repaired code answers "S" -/
+theorem hash_collision_pinned_before_F33_witness :
+    BeforeF33.run W0 lenHash (BeforeF33.init .unset 100)
       [.setTZ [98], .convert 0 false, .setTZ [103], .advance 2000000000, .convert 0 false,
        .advance 1000000000, .convert 0 false] =
       [(.tzif (usrShareZoneinfo ++ [47, 98]) 2, .created),
        (.tzif (usrShareZoneinfo ++ [47, 98]) 2, .rechecked),
        (.tzif (usrShareZoneinfo ++ [47, 98]) 2, .rechecked)] ∧
-    zoneFor (W0 lenHash) (some [103]) = .tzif (usrShareZoneinfo ++ [47, 83]) 9 := by decide
+    lenHash [98] = lenHash [103] ∧
+    zoneFor W0 (some [103]) = .tzif (usrShareZoneinfo ++ [47, 83]) 9 ∧
+    run W0 (init .unset 100)
+      [.setTZ [98], .convert 0 false, .setTZ [103], .advance 2000000000, .convert 0 false,
+       .advance 1000000000, .convert 0 false] =
+      [(.tzif (usrShareZoneinfo ++ [47, 98]) 2, .created),
+       (.tzif (usrShareZoneinfo ++ [47, 83]) 9, .reloaded),
+       (.tzif (usrShareZoneinfo ++ [47, 83]) 9, .rechecked)] := by decide
+
+/-- the former `hash_collision_is_not_covered` ("the assumption on the hash cannot be dropped") turned
+round: there is no assumption left, and values that collide under any hash one may think of are
+honoured like any others — every two distinct values, every world -/
+theorem hash_collision_is_covered (W : World) (a b : Bytes) (hab : a ≠ b) (e0 : EnvVal) (k0 : Nat)
+    (t : Nat) (l1 l2 : Bool) (n : Nat) (hn : ONE_SECOND ≤ n) :
+    run W (init e0 k0) [.setTZ a, .convert t l1, .setTZ b, .advance n, .convert t l2] =
+      [(zoneFor W (some a), .created), (zoneFor W (some b), .reloaded)] := by
+  rw [← current_zone_eq, ← current_zone_eq]; exact collision_noticed W a b hab e0 k0 t l1 l2 n hn
 
 /-- same value set again, and unset → unset with an unchanged mtime: re-checked, zone kept;
 environment ↔ /etc/localtime: reloaded -/
 example :
-    run (W0 sumHash) (init .unset 0)
+    run W0 (init .unset 0)
       [.convert 0 false, .advance 1000000000, .convert 0 false, .setTZ [98], .advance 1500000000,
        .convert 0 false, .setTZ [98], .advance 1000000000, .convert 0 false, .setNotUnicode,
        .advance 1000000000, .convert 0 true] =
@@ -355,23 +396,23 @@ example :
 read as a rule; "/d" (a directory) and "/x" (not TZif) exist and therefore decide; padded "b" is not
 found as a file -/
 example :
-    current_zone { W0 sumHash with rule := fun _ => some 3 } (some [98]) = .tzif (usrShareZoneinfo ++ [47, 98]) 2 ∧
-    current_zone (W0 sumHash) (some [58, 88, 89, 90, 45, 51]) = .tzif (usrShareZoneinfo ++ [47, 83]) 9 ∧
-    current_zone (W0 sumHash) (some [88, 89, 90, 45, 51]) = .rule [88, 89, 90, 45, 51] 3 ∧
-    current_zone { W0 sumHash with rule := fun _ => some 3 } (some [47, 100]) = .tzif (usrShareZoneinfo ++ [47, 83]) 9 ∧
-    current_zone { W0 sumHash with rule := fun _ => some 3 } (some [47, 120]) = .tzif (usrShareZoneinfo ++ [47, 83]) 9 ∧
-    current_zone { W0 sumHash with rule := fun s => if s = [98] then some 4 else none } (some [32, 98]) = .rule [98] 4 := by
+    current_zone { W0 with rule := fun _ => some 3 } (some [98]) = .tzif (usrShareZoneinfo ++ [47, 98]) 2 ∧
+    current_zone W0 (some [58, 88, 89, 90, 45, 51]) = .tzif (usrShareZoneinfo ++ [47, 83]) 9 ∧
+    current_zone W0 (some [88, 89, 90, 45, 51]) = .rule [88, 89, 90, 45, 51] 3 ∧
+    current_zone { W0 with rule := fun _ => some 3 } (some [47, 100]) = .tzif (usrShareZoneinfo ++ [47, 83]) 9 ∧
+    current_zone { W0 with rule := fun _ => some 3 } (some [47, 120]) = .tzif (usrShareZoneinfo ++ [47, 83]) 9 ∧
+    current_zone { W0 with rule := fun s => if s = [98] then some 4 else none } (some [32, 98]) = .rule [98] 4 := by
   decide
 
-/-- with the colliding hash of `hash_collision_is_not_covered`: values "b" and "g" collide, yet after
-unsetting TZ (no assumption needed) and after setting a value of another length the change is honoured -/
+/-- values "b" and "g" (equal under `lenHash`), then unset, then a third value: every change is
+honoured one second later -/
 example :
-    run (W0 lenHash) (init .unset 100)
+    run W0 (init .unset 100)
       [.setTZ [98], .convert 0 false, .setTZ [103], .advance 2000000000, .convert 0 false,
        .unsetTZ, .advance 1000000000, .convert 0 false,
        .setTZ [47, 97], .advance 1000000000, .convert 0 true] =
       [(.tzif (usrShareZoneinfo ++ [47, 98]) 2, .created),
-       (.tzif (usrShareZoneinfo ++ [47, 98]) 2, .rechecked),
+       (.tzif (usrShareZoneinfo ++ [47, 83]) 9, .reloaded),
        (.tzif etcLocaltime 7, .reloaded), (.tzif [47, 97] 1, .reloaded)] := by decide
 
 end Chrono.Props.C18
